@@ -67,7 +67,8 @@ def gen_cases(tier, seed):
                 ms.append(m.tolist())
         cases.append({"kind": "supercells", "crystal": {"name": name, "order": ["asis", "random", "interleave"][rng.integers(3)], "order_seed": int(rng.integers(1000)),
                                                          "int_shift": bool(rng.integers(2)), "edge": bool(rng.integers(2)),
-                                                         "rot_seed": int(rng.integers(1000)) if rng.integers(2) else None},
+                                                         "rot_seed": int(rng.integers(1000)) if rng.integers(2) else None,
+                                                         "isotope_seed": int(rng.integers(1000)) if rng.integers(3) == 0 else None},
                       "mats": ms})
     if tier == "thorough":
         # exhaustive {-1,0,1} matrices with det>0 for 3 cells, both algorithms
@@ -84,7 +85,10 @@ def gen_cases(tier, seed):
             for rep in range(2 if tier == "quick" else 8):
                 cases.append({"kind": "primitive", "crystal": {"name": name, "order": ["asis", "random", "interleave"][rng.integers(3)], "order_seed": int(rng.integers(1000)),
                                                                 "int_shift": bool(rng.integers(2)), "edge": bool(rng.integers(2)),
-                                                                "rot_seed": int(rng.integers(1000)) if rng.integers(2) else None},
+                                                                "rot_seed": int(rng.integers(1000)) if rng.integers(2) else None,
+                                                                # (only without a centring reduction: masses that differ between atoms related by a centring translation would make the
+                                                                # requested primitive cell not a period of the crystal - illegitimate input, first version of this dimension)
+                                                                "isotope_seed": int(rng.integers(1000)) if (pmn == "P" and rng.integers(2) == 0) else None},
                               "pm": pmn, "mseed": int(rng.integers(10 ** 6)), "dense": bool(rng.integers(2))})
     # explicit primitive matrices relative to the supercell: supercell = S, primitive = inverse of a sub-tiling
     for rep in range(10 if tier == "quick" else 60):
